@@ -155,6 +155,7 @@ fn gen_tree(dna: &[u8], depth: usize) -> (Option<Vec<(String, Meta)>>, Comp) {
 				("playedOn".into(), Meta::Str("dolphin".into())),
 			])
 		}
+		230..=235 => Some(crate::gen::bulky_metadata([20usize, 40, 150, 300][d.below(4)] + d.below(8), d.u8() as u64)),
 		236..=249 => {
 			// wide / bushy trees: many sibling maps at small depth (format limits bound depth and string
 			// length, not the number of maps)
@@ -189,7 +190,7 @@ fn gen_tree(dna: &[u8], depth: usize) -> (Option<Vec<(String, Meta)>>, Comp) {
 	(t, comp)
 }
 
-const FIXED: usize = 16;
+const FIXED: usize = 18;
 fn fixed(i: usize) -> Option<Vec<(String, Meta)>> {
 	let s = |x: &str| Meta::Str(x.to_string());
 	match i {
@@ -203,6 +204,8 @@ fn fixed(i: usize) -> Option<Vec<(String, Meta)>> {
 		7 => Some(vec![("10".into(), Meta::Int(1)), ("9".into(), Meta::Int(2)), ("1".into(), Meta::Int(3))]),
 		8 => Some(vec![("é".repeat(127), s(&"ß".repeat(127)))]),
 		10 => Some((0..300).map(|i| (format!("m{}", i), Meta::Map(vec![]))).collect()),
+		16 => Some(crate::gen::bulky_metadata(40, 1)),
+		17 => Some(crate::gen::bulky_metadata(300, 2)),
 		11 => Some((0..6).map(|a| (format!("a{}", a), Meta::Map((0..6).map(|b| (format!("b{}", b), Meta::Map((0..6).map(|c| (format!("c{}", c), Meta::Map(vec![("v".into(), Meta::Int(a * 36 + b * 6 + c))]))).collect()))).collect()))).collect()),
 		12 => Some((0..60).map(|p| (format!("{}", p), Meta::Map(vec![("characters".into(), Meta::Map(vec![("1".into(), Meta::Int(p))])), ("names".into(), Meta::Map(vec![("netplay".into(), s("x")), ("code".into(), s("A#1"))]))]))).collect()),
 		13 | 14 | 15 => {
